@@ -822,6 +822,10 @@ def gen_pair_equal(rng, noise=True):
             G.add_noise(rng, M, eps)
             G.add_noise(rng, N, eps)
             flavour.append("noise")
+    if eps == 0 and rng.random() < 0.25:
+        # coordinates stored in single precision on both sides (to_fieldcompare does so only when every coordinate is representable)
+        M["ptype"] = N["ptype"] = "float32"
+        flavour.append("float32_coordinates")
     return M, N, flavour, eps
 
 
